@@ -74,7 +74,7 @@ SegBases == {0, 16382, 16383, 16384}
 
 (* C01 (d): constructor inputs exactly at 63/64 and 255/256 *)
 DLabels == {Rep(97, k) : k \in {1, 2, 61, 62, 63, 64}}
-DSeqs == {<<>>} \cup UNION {[1..m -> DLabels \cup {<<>>}] : m \in 1..3}
+DSeqs == {<<>>} \cup UNION {[1..m -> DLabels \cup {<<>>}] : m \in 1..2}
 DLong == {Rep(Rep(97, 63), 3) \o s : s \in {<<Rep(97, k)>> : k \in {59, 60, 61, 62, 63}} \cup {<<Rep(97, k), <<>>>> : k \in {59, 60, 61, 62}}}
          \cup {Rep(Rep(97, 63), 3), Rep(Rep(97, 63), 3) \o Root, Rep(Rep(97, 63), 4)}
 ConstructInputs == DSeqs \cup DLong
